@@ -359,6 +359,7 @@ package database
 //@   invariant resultsOK(db, results) && sortedDesc(results) && gatesOK(results, options)
 //@   invariant forall k, j int :: 0 <= k && k < len(results) && $i <= j && j < len(matches) ==> cmdIdx(db, results[k].Command) != matches[j].Index && results[k].Score >= normFuzzy(matches[j].Score)
 //@   invariant forall k int :: 0 <= k && k < len(results) ==> results[k].Score <= 1.0 && (options.FuzzyThreshold != 0 ==> results[k].Score >= normFuzzy(options.FuzzyThreshold))
+//@   invariant[C07.raw-threshold] options.FuzzyThreshold != 0 ==> (forall k int :: 0 <= k && k < len(results) ==> (exists j int :: 0 <= j && j < $i && matches[j].Index == cmdIdx(db, results[k].Command) && matches[j].Score >= options.FuzzyThreshold))
 
 // ---------------------------------------------------------------------------
 // SearchUniversal
